@@ -804,3 +804,151 @@ func TestC17Manager(t *testing.T) {
 		t.Fatal(err)
 	}
 }
+
+// ---------------- idle and timer services ----------------
+
+func runTimer(t *testing.T, idle bool, ch *sched.Chooser) (res sched.Result) {
+	synctest.Test(t, func(t *testing.T) {
+		e := sched.NewExec(ch)
+		e.MaxSteps = 3000
+		e.Quantum = time.Second
+		ticks := 0
+		iters := 0
+		var iterErrAt int
+		stopRequested := false
+		iter := func(ctx context.Context) error {
+			sched.SetName("main")
+			iters++
+			n := iters
+			k := sched.Choose("iteration", 2, false)
+			sched.Obs(fmt.Sprintf("iteration %d outcome=%d ctxErr=%v", n, k, ctx.Err()))
+			if k == 1 {
+				iterErrAt = n
+				return errRun
+			}
+			return nil
+		}
+		stopFn := func(err error) error {
+			sched.SetName("main")
+			sched.Yield("stop-enter")
+			sched.Obs(fmt.Sprintf("stop-enter failure=%v", err))
+			return nil
+		}
+		var svc *services.BasicService
+		if idle {
+			svc = services.NewIdleService(func(ctx context.Context) error {
+				sched.SetName("main")
+				sched.Yield("start-enter")
+				sched.Obs("start-enter")
+				return nil
+			}, stopFn)
+		} else {
+			svc = services.NewTimerService(time.Second, nil, iter, stopFn)
+		}
+		svc.AddListener(lst{name: "L0"})
+		// a tick is offered only while the service goroutine sits in its select (not parked inside an iteration)
+		e.ClockOn = func() bool { return !idle && ticks < 3 && !e.ParkedInCond("main") && !stopRequested }
+		e.OnClock = func() { ticks++ }
+		e.Enable()
+		e.Go("a-starter", func() { _ = svc.StartAsync(context.Background()) })
+		e.Go("z-stopper", func() {
+			stopRequested = true
+			sched.Obs("stop-request")
+			svc.StopAsync()
+		})
+		e.Go("w-terminated", func() {
+			err := svc.AwaitTerminated(context.Background())
+			sched.Obs(fmt.Sprintf("AwaitTerminated -> nil=%v", err == nil))
+		})
+		status := e.Run()
+		log := e.Events()
+		canon := e.CanonLog()
+		trace := append([]string{}, e.Trace...)
+		parked := e.Parked()
+		e.Disable()
+		synctest.Wait()
+		var viol, key string
+		fail := func(k, f string, a ...any) {
+			if viol == "" {
+				viol, key = fmt.Sprintf(f, a...), k
+			}
+		}
+		if status != "done" {
+			fail("deadlock", "execution did not finish: status=%s parked=%v log=%v", status, parked, canon)
+		}
+		var seq []string
+		stopSeq := int64(0)
+		stops := 0
+		lastIter := int64(0)
+		for _, evn := range log {
+			switch {
+			case strings.HasPrefix(evn.Text, "L0 "):
+				seq = append(seq, strings.TrimPrefix(evn.Text, "L0 "))
+			case strings.HasPrefix(evn.Text, "stop-enter"):
+				stops++
+				stopSeq = evn.Seq
+			case strings.HasPrefix(evn.Text, "iteration "):
+				lastIter = evn.Seq
+			}
+		}
+		if !legalSequence(seq) {
+			fail("illegal-transitions", "illegal transition sequence %v", seq)
+		}
+		final := svc.State()
+		started := len(seq) > 0 && seq[0] == "Starting"
+		if viol == "" && status == "done" {
+			if started && final != services.Terminated && final != services.Failed {
+				fail("not-terminal", "service ended in %v", final)
+			}
+			if started && stops != 1 {
+				fail("stop-count", "stopping function ran %d times", stops)
+			}
+			if stopSeq != 0 && lastIter > stopSeq {
+				fail("iteration-after-stop", "an iteration ran after the stopping function")
+			}
+			if iterErrAt != 0 {
+				if final != services.Failed || svc.FailureCase() == nil || !errors.Is(svc.FailureCase(), errRun) {
+					fail("iteration-error-lost", "iteration %d failed but the service ended %v with failure %v", iterErrAt, final, svc.FailureCase())
+				}
+				if iters > iterErrAt {
+					fail("iteration-after-error", "%d iterations ran although iteration %d failed", iters, iterErrAt)
+				}
+			} else if started && final != services.Terminated {
+				fail("final-state", "no function failed but the service ended %v (%v)", final, svc.FailureCase())
+			}
+			if iters > ticks {
+				fail("iterations-without-tick", "%d iterations for %d ticks", iters, ticks)
+			}
+		}
+		res = sched.Result{Violation: viol, Key: key, Outcome: fmt.Sprintf("%v|%v|iters=%d err@%d", seq, final, iters, iterErrAt), Trace: append(trace, canon...)}
+		svc.StopAsync()
+		e.Teardown()
+	})
+	return
+}
+
+func TestC17Timer(t *testing.T) {
+	rep := ev.NewReport("C17", "idle-timer")
+	bound := 3
+	if ev.Thorough() {
+		bound = 4
+	}
+	rep.Bound = fmt.Sprintf("idle service and timer service (interval 1 s, up to 3 ticks of the virtual clock as explorer choices, every iteration outcome nil/error), threads StartAsync / StopAsync / AwaitTerminated; all schedules with <= %d preemptions", bound)
+	rep.Rule = "stateless DFS on the real NewIdleService / NewTimerService; oracle: legal transition sequence, stopping function exactly once, no iteration after it or after a failed iteration, an iteration error becomes the failure cause, terminal state reached, no deadlock; distinct_nontrivial = distinct (transition sequence, final state, iterations)"
+	deadline := ev.Deadline(5 * time.Minute)
+	for _, idle := range []bool{true, false} {
+		name := "timer"
+		if idle {
+			name = "idle"
+		}
+		x := &sched.Explorer{Bound: bound, Report: rep, Deadline: deadline, Scenario: name, Run: func(c *sched.Chooser) sched.Result { return runTimer(t, idle, c) }}
+		if !x.ExploreOrReplay() {
+			rep.NotExhaustive("deadline or violation cap in " + name)
+			break
+		}
+		rep.Sample(fmt.Sprintf("%s: %d executions, %d distinct outcomes", name, x.Execs, x.Outcomes()))
+	}
+	if err := rep.Write(); err != nil {
+		t.Fatal(err)
+	}
+}
